@@ -23,7 +23,9 @@ DEF_LEAF4 = ('Cmd(%s, << Grp("{", << Cmd(%s, <<>>) >>, <<>>), Grp("{", << Cmd(%s
 
 DEF_LEAF5 = ('Cmd(%s, << Grp("{", << Cmd(%s, <<>>) >>, <<>>), Grp("[", << T(%s) >>, <<>>), Grp("{", << Cmd(%s, << Grp("{", << T(%s) >>, <<>>), Grp("[", << T(%s) >>, <<>>) >>) >>, <<>>) >>)'
              % (S('newcommand'), S('nm'), S('1'), S('begin'), S('e'), S('#1')))
-DEF_LEAVES = [DEF_LEAF, DEF_LEAF2, DEF_LEAF3, DEF_LEAF4, DEF_LEAF5]
+DEF_LEAF6 = ('Cmd(%s, << Grp("{", << Cmd(%s, <<>>) >>, <<>>), Grp("{", << Grp("{", << Cmd(%s, << Grp("{", << T(%s) >>, <<>>) >>) >>, <<>>) >>, <<>>) >>)'
+             % (S('newcommand'), S('nm'), S('begin'), S('e')))      # \newcommand{\nm}{{\begin{e}}}: the definition mode reaches into a nested brace group
+DEF_LEAVES = [DEF_LEAF, DEF_LEAF2, DEF_LEAF3, DEF_LEAF4, DEF_LEAF5, DEF_LEAF6]
 
 
 def leaf_cmd(name, *groups):
